@@ -84,6 +84,51 @@ G1cCase(rk, docs) ==
   IN [fam |-> "G1c", prog |-> Program(defs \o Helpers, <<>>), roots |-> <<A0("L")>>]
 G1c(z) == {G1cCase(rk, d) : rk \in RecKinds, d \in BOOLEAN}
 
+(* G7: a substitutable generic Sub<A,B> (and the prelude BTreeMap) in every position: field, nested in *)
+(* Vec/Option/tuple/array, argument of another generic, nested in itself, in variants, under a parent   *)
+(* parameter, boxed; one position per program plus a combined one.                                       *)
+SubE(x, y) == P_Adt("Sub", <<x, y>>)
+SubDef == Struct("Sub", Mod \o <<"sub">>, <<Param("A"), Param("B")>>, <<SField("a", P_Param("A")), SField("b", P_Param("B"))>>)
+SubPositions == {SubE(u8, bool), P_Vec(SubE(u8, bool)), P_Opt(SubE(u16, u8)), P_Tup(<<SubE(u8, bool), u8>>), P_Arr(SubE(u8, bool), 2),
+                 P_Adt("G", <<SubE(u8, bool)>>), SubE(SubE(u8, bool), u16), P_BTreeMap(u8, SubE(u8, str)), P_Box(SubE(u8, bool)),
+                 P_Adt("DP", <<bool>>), P_Tup(<<P_Adt("DP", <<bool>>), P_Adt("DP", <<u16>>)>>), P_Vec(P_Vec(SubE(unit, u8)))}
+DPDef == Struct("DP", Mod, <<Param("T")>>, <<SField("x", SubE(T, u8)), SField("y", P_Vec(SubE(u8, T))), SField("z", T)>>)
+G7Case(e, shape) == [fam |-> "G7", prog |-> Program(<<G1aDef(e, shape, FALSE), SubDef, DPDef>> \o Helpers, <<>>), roots |-> <<A0("S")>>]
+G7(z) == {G7Case(e, sh) : e \in SubPositions, sh \in {"named", "vunnamed"}}
+         \cup {[fam |-> "G7", prog |-> Program(<<Struct("S", Mod, <<>>, <<SField("a", SubE(u8, bool)), SField("b", P_Vec(SubE(u16, u8))), SField("c", P_Adt("DP", <<u32>>)),
+                                                                           SField("d", P_BTreeMap(u8, u8))>>), SubDef, DPDef>> \o Helpers, <<>>),
+                 roots |-> <<A0("S"), SubE(u8, bool)>>]}
+
+(* G8: type graphs for derive/attribute propagation: every structural edge kind (field, variant field, tuple, *)
+(* array, sequence, compact wrapper, generic argument, phantom parameter, Option<Box<..>> cycles), several     *)
+(* roots with overlapping reach, an unreachable type, a bit sequence whose order marker is substituted.        *)
+G8Defs == <<
+  Struct("R", Mod, <<>>, <<SField("a", A0("X")), SField("b", P_Tup(<<A0("Y"), P_Arr(A0("Z"), 2)>>)), SField("c", P_Vec(A0("W"))),
+                           CField("d", A0("CW")), SField("e", P_Adt("G", <<A0("V")>>)), SField("f", P_Opt(P_Box(A0("R")))),
+                           SField("g", P_Adt("PhT", <<A0("Q")>>)), SField("h", P_Bits("u8", "Lsb0"))>>),
+  Struct("X", Mod \o <<"leaf">>, <<>>, <<SField("x", u8)>>),
+  Struct("Y", Mod, <<>>, <<SField("", u16)>>),
+  Enum("Z", Mod, <<>>, <<Variant("A", 0, <<>>), Variant("B", 1, <<SField("", A0("X"))>>)>>),
+  Struct("W", Mod \o <<"deep", "er">>, <<>>, <<SField("w", P_Vec(A0("W"))), SField("back", P_Opt(P_Box(A0("R")))), SField("k", P_BTreeMap(u8, A0("K")))>>),
+  Struct("CW", Mod, <<>>, <<SField("", u32)>>),
+  Struct("V", Mod, <<>>, <<>>),
+  Struct("Q", Mod, <<>>, <<SField("q", bool)>>),
+  Struct("K", Mod, <<>>, <<SField("k", P_Compact(u64))>>),
+  Struct("PhT", Mod, <<Param("T")>>, <<SField("n", u8), SField("p", P_Phantom(T))>>),
+  Struct("Un", Mod, <<>>, <<SField("u", i8)>>) >> \o <<UserG>>
+G8Prog == Program(G8Defs, <<>>)
+G8Roots == {<<A0("R"), A0("Un")>>, <<A0("Un"), A0("W")>>, <<A0("Z"), A0("Un"), P_Adt("G", <<A0("V")>>), P_Adt("G", <<A0("Q")>>)>>}
+G8(z) == {[fam |-> "G8", prog |-> G8Prog, roots |-> r] : r \in G8Roots}
+\* CompactAs eligibility: single-field wrappers over every primitive, named / unnamed / boxed / compact / two fields / enum
+G8bDefs(p) == <<Struct("Wn", Mod, <<>>, <<SField("v", p)>>), Struct("Wu", Mod, <<>>, <<SField("", p)>>), Struct("Wb", Mod, <<>>, <<SField("v", P_Box(p))>>),
+                Struct("W2", Mod, <<>>, <<SField("v", p), SField("w", p)>>), Enum("We", Mod, <<>>, <<Variant("A", 0, <<SField("", p)>>)>>),
+                Struct("Wg", Mod, <<Param("T")>>, <<SField("v", T)>>), Struct("Wph", Mod, <<Param("T")>>, <<SField("v", p), SField("m", P_Phantom(T))>>),
+                Struct("Wcow", Mod, <<>>, <<SField("v", P_Cow(p))>>)>>
+              \o (IF p \in UnsignedLeaves THEN <<Struct("Wc", Mod, <<>>, <<CField("v", p)>>), Struct("Wct", Mod, <<>>, <<SField("v", P_Compact(p))>>)>> ELSE <<>>)
+G8b(z) == {[fam |-> "G8b", prog |-> Program(G8bDefs(p) \o <<Struct("Root", Mod, <<>>, [i \in DOMAIN G8bDefs(p) |->
+                       SField("f" \o ToString(i), IF G8bDefs(p)[i].name \in {"Wg", "Wph"} THEN P_Adt(G8bDefs(p)[i].name, <<p>>) ELSE A0(G8bDefs(p)[i].name))])>>, <<>>),
+              roots |-> <<A0("Root")>>] : p \in PrimLeaves}
+
 (* G2p: same-path families derived from programs: instantiation families (with and without id *)
 (* coincidences), associated-type families (parameter skipped or not), version families (two   *)
 (* unrelated definitions under one path, also differing in arity), optionally next to a        *)
